@@ -9,11 +9,15 @@ import (
 type OrgCase struct {
 	P     Prog    `json:"prog"` // without ORG statement, 16-bit
 	Orgs  []int64 `json:"orgs"` // -1 = no ORG statement
+	Mode  int     `json:"mode,omitempty"` // 0 = 16-bit program
 	Cell_ string  `json:"cell"`
 }
 
 func (c *OrgCase) Kind() string { return "org" }
 func (c *OrgCase) prog(org int64) *Prog {
+	if c.Mode == 32 {
+		return withPrologue(&c.P, 32, org)
+	}
 	return withPrologue(&c.P, 16, org)
 }
 func (c *OrgCase) Reqs() []Req {
@@ -168,6 +172,7 @@ func addLabelStores(r *Rand, p *Prog) {
 }
 
 var c16Origins = []int64{-1, 0, 0x100, 0x7c00, 0xc200, 0x8000, 0xfff0}
+var c16Origins32 = []int64{-1, 0, 0x100000, 0x280000, 0x7fffffc0, 0x7ffffff0, 0x80000000, 0xc0000000, 0xfffff000}
 
 func init() {
 	props["C16"] = propCheck{run: func(env *Env, rep *Report) {
@@ -197,7 +202,18 @@ func init() {
 			}
 			cases = append(cases, &OrgCase{P: *p, Orgs: orgs, Cell_: fmt.Sprintf("ref=%d stmts=%d", orgs[0], len(p.Stmts)/10)})
 		}
-		rep.Rule = "seeded 16-bit programs from the size-clean pool with label-target branches, MOV r,label, DW/DD label, DW $, MOV r,$, ALIGNB <= 16, EQUs, and (every second program) names defined as `EQU $` on the first line after ORG and further down, used from DW/DD/MOV elsewhere, and (every third) labels stored through a memory operand without a size keyword; each assembled at origins from {none, 0, 0x100, 0x7c00, 0xc200, 0x8000, 0xfff0} (thorough: all 7, quick: 4); " +
+		// 32-bit programs at the origins 32-bit code is loaded at, including images that straddle 2^31 and lie above it
+		for i := 0; i < n/4; i++ {
+			p, _ := genLabelled(r, 32, -1, genOpts{Equs: i%3 == 0, Jumps: true})
+			orgs := Sample(r, c16Origins32, 4)
+			if env.Tier == "thorough" {
+				orgs = append([]int64{}, c16Origins32...)
+				k := i % len(orgs)
+				orgs = append(orgs[k:], orgs[:k]...)
+			}
+			cases = append(cases, &OrgCase{P: *p, Orgs: orgs, Mode: 32, Cell_: fmt.Sprintf("m32 ref=%d stmts=%d", orgs[0], len(p.Stmts)/10)})
+		}
+		rep.Rule = "seeded 16-bit programs from the size-clean pool with label-target branches, MOV r,label, DW/DD label, DW $, MOV r,$, ALIGNB <= 16, EQUs, and (every second program) names defined as `EQU $` on the first line after ORG and further down, used from DW/DD/MOV elsewhere, and (every third) labels stored through a memory operand without a size keyword; each assembled at origins from {none, 0, 0x100, 0x7c00, 0xc200, 0x8000, 0xfff0} (thorough: all 7, quick: 4); a fifth of the programs are 32-bit programs assembled at origins from {none, 0, 0x100000, 0x280000, 0x7fffffc0, 0x7ffffff0 (the image straddles 2^31), 0x80000000, 0xc0000000, 0xfffff000}; " +
 			"constructs whose size legitimately depends on absolute values (RESB x-$, numeric branch targets) are excluded; oracle: the walker marks the byte ranges holding absolute label/$ values in the reference image; every other image has the same length, identical bytes outside those ranges (so relative displacements are unchanged) and value_b - value_a = b - a inside them; no ORG == ORG 0; distinct = (reference origin, size bucket) cells"
 		outs := RunCases(env, cases)
 		xcheckProg(env, rep, outs)
